@@ -70,6 +70,11 @@ def run_world(aiu, w, prefix=(), expect=None):
             return gen()
         if k == 'iter':
             return iter(list(vals))
+        if k == 'reiter':           # re-iterable (not an Iterator) whose iteration may fail part-way
+            class ReIterable:
+                def __iter__(self):
+                    return gen()
+            return ReIterable()
         raise ValueError(k)
 
     if w['api'] == 'async':
@@ -96,6 +101,22 @@ def run_world(aiu, w, prefix=(), expect=None):
                 obs['got'], obs['end'], obs['live'] = got, end, live_workers()
                 ticker.cancel()
             asyncio.run(main(), loop_factory=lambda: sched.new_loop('C'))
+    elif w['api'] == 'sync2':      # two bridges alive at the same time (zip), default loops
+        vloop.install_policy()
+
+        def body():
+            got = []
+            try:
+                for a, b in zip(aiu.to_sync_iter(agen()), aiu.to_sync_iter(agen())):
+                    got.append(a)
+                    if b is not a and b != a:
+                        got.append(('MISMATCH', b))
+                end = ('stop',)
+            except tx.SchedAbort:
+                raise
+            except BaseException as e:   # noqa
+                end = ('exc', e)
+            obs['got'], obs['end'], obs['live'] = got, end, []
     else:
         vloop.install_policy()
 
@@ -166,12 +187,14 @@ def worlds(tier):
     out = []
     nmax = 4 if q else 6
     for api in ('async', 'sync'):
-        kinds = ('list', 'range', 'gen', 'iter') if api == 'async' else ('agen',)
+        kinds = ('list', 'range', 'gen', 'iter', 'reiter') if api == 'async' else ('agen',)
         for kind in kinds:
             for n in range(0, nmax + 1):
                 fps = [None] + list(range(0, n + 1))
                 if kind in ('list', 'range', 'iter'):
                     fps = [None]
+                if kind == 'reiter':
+                    fps = list(range(0, n + 1))
                 for fp in fps:
                     for step in ((0.0, D) if kind in ('gen', 'agen') else (0.0,)):
                         for pause in (0.0, D) if n and kind in ('gen', 'agen') else (0.0,):
@@ -182,6 +205,10 @@ def worlds(tier):
                                 threaded = kind in ('gen', 'iter', 'agen')
                                 pb = (3 if n <= 2 else 2) if q else (4 if n <= 2 else 3)
                                 out.append((w, pb if threaded else 0))
+    for n in (1, 2, 3):
+        for step in (0.0, D):
+            out.append((dict(api='sync2', kind='agen', n=n, failpos=None, step=step, pause=0.0, own_loop=False),
+                        1 if q else 2))
     return out
 
 
